@@ -2,7 +2,7 @@
 (* C13: save / load round trips of the real emulator judged by Snapshot.tla.     *)
 (* C14: loads of independently written SNA / SZX / SCR files judged against the  *)
 (* description they were written from.                                           *)
-EXTENDS Snapshot, Json, IOUtils, FiniteSets
+EXTENDS Snapshot, Screen, Json, IOUtils, FiniteSets
 
 Rec == ndJsonDeserialize(IOEnv.TRACE)
 
@@ -64,6 +64,14 @@ FileLoad(e) ==
                   \cup (IF st.border # d.border THEN {"border"} ELSE {})
                   \cup (IF e.m_file = 128 /\ (st.latch # d.latch \/ st.locked # (Bit(d.latch, 5) = 1)) THEN {"paging"} ELSE {})
                   \cup (IF e.ram_diff # <<>> THEN {"ram"} ELSE {})
+                  \* "every RAM page as seen by ... the display": sampled pixels of a later frame are the standard decode
+                  \* (either flash phase) of bank 5, or of bank 7 when the file's latch selects the shadow screen
+                  \cup (LET sb == IF e.m_file = 128 /\ Bit(d.latch, 3) = 1 THEN 7 ELSE 5
+                            BadPix(p) == LET x == p[1]   y == p[2]
+                                             bmp == RamAt(d, sb, BitmapOff(y, x \div 8))
+                                             attr == RamAt(d, sb, AttrOff(y, x \div 8))
+                                         IN p[3] \notin {PixelOf(bmp, attr, x, FALSE), PixelOf(bmp, attr, x, TRUE)}
+                        IN IF \E i \in DOMAIN e.pix : BadPix(e.pix[i]) THEN {"display"} ELSE {})
                   \* "halted and EI-pending status"; nothing inherited from the receiving machine
                   \cup (IF (st.halted = 1) # e.opts.halted THEN {"halted"} ELSE {})
                   \cup (IF (st.ei = 1) # e.opts.eilast THEN {"eilast"} ELSE {})
